@@ -399,7 +399,7 @@ func (s *chaos) settings() {
 		}
 	case q < 4:
 		w := s.wrapper("html")
-		args := " id=" + hx(r.text(alphaHTML, 2)) + " cls=" + hx(r.text(alphaHTML, 2)) + " cap=" + hx(r.text(alphaHTML, 2))
+		args := " id=" + hx(r.text(alphaHTML, 2)) + " cls=" + hx(r.text(alphaHTML, 2)) + " cap=" + hx(r.text(alphaHTML, 2)) + r.pick([]string{"", "", " tn=" + hx("layout"), " tn=" + hx("x{{y}}")})
 		if r.chance(2, 3) {
 			var l []string
 			for n := 0; n <= g.x.tables[idOf(w.t)].NRows()+3; n++ {
